@@ -1,5 +1,7 @@
 pub mod c01;
 pub mod c02;
+pub mod c03;
+pub mod c04;
 pub mod c05;
 pub mod c06;
 pub mod c07;
@@ -37,7 +39,7 @@ impl Prop {
 }
 
 pub fn registry() -> Vec<Prop> {
-    vec![c01::prop(), c02::prop(), c05::prop(), c06::prop(), c07::prop(), c08::prop()]
+    vec![c01::prop(), c02::prop(), c03::prop(), c04::prop(), c05::prop(), c06::prop(), c07::prop(), c08::prop()]
 }
 
 pub fn find(id: &str) -> Option<Prop> {
